@@ -7,6 +7,8 @@ use serde::{Deserialize, Serialize};
 pub enum Op {
     /// set_time(t + dt)
     Tick { dt: u64 },
+    /// set_time(2^64 - 1 - back): the clock jumps to the top of its domain (the last representable instants)
+    TickTop { back: u8 },
     Create { a: usize, bid: bool, vol: u32, trader: u32, price: Option<u32> },
     Place { a: usize, ord: usize },
     CreatePlace { a: usize, bid: bool, vol: u32, trader: u32, price: Option<u32> },
